@@ -195,7 +195,8 @@ def r4_cursor(r, facts):
     okinc = False
     if inc is not None and inc[0] == 'bin' and inc[1].startswith('Add'):
         parts = [c15.strip(inc[2]), c15.strip(inc[3])]
-        has_hdr = any(p[0] == 'call' and p[1] == 'std::mem::size_of::<libc::inotify_event>' for p in parts)
+        hdr_size = (facts.layouts.get('libc::inotify_event') or (None,))[0]
+        has_hdr = any((p[0] == 'call' and p[1] == 'std::mem::size_of::<libc::inotify_event>') or (p[0] == 'const' and p[1] is not None and p[1] == hdr_size) for p in parts)
         has_len = any(fam.last_field(p) == 'len' and p[0] == 'proj' for p in parts)
         okinc = has_hdr and has_len
     r.inst('processed += %s' % (inc,), f.where(sl))
@@ -217,7 +218,10 @@ def r4_cursor(r, facts):
             or (t.get('callee') or '').endswith('::rposition')]
     forms = [loc for loc, t in f.calls() if (t.get('callee') or '') in ('std::ptr::slice_from_raw_parts', 'std::slice::from_raw_parts') and 'notify::Event' not in (t.get('callee_full') or '')]
     evref = [loc for loc, t in f.calls() if (t.get('callee') or '') == 'std::ptr::slice_from_raw_parts']
-    r.require(bool(rpos), 'poll_sys/padding', 'name padding is not stripped with a last-non-NUL search', f.where())
+    scan = None if rpos else backward_nul_scan(f)
+    if scan is not None:
+        r.inst('padding stripped by a backward scan for the last non-NUL byte (counter _%d over the whole name slice)' % scan['counter'], f.where(scan['test']))
+    r.require(bool(rpos) or scan is not None, 'poll_sys/padding', 'name padding is not stripped with a last-non-NUL search', f.where())
     # the search covers the whole name field (the kernel pads with 1..=16 NULs: the terminator plus alignment)
     SUBSLICE = ('std::ops::Index::index', 'core::slice::<impl [T]>::get', 'core::slice::<impl [T]>::split_at', 'core::slice::<impl [T]>::split_at_checked',
                 'core::slice::<impl [T]>::last_chunk', 'core::slice::<impl [T]>::rchunks', 'core::slice::<impl [T]>::get_unchecked', 'std::iter::Iterator::take', 'std::iter::Iterator::skip')
@@ -232,11 +236,70 @@ def r4_cursor(r, facts):
             r.require(fam.last_field(w[2][1]) == 'len' or 'len' in str(w[2][1]), 'poll_sys/padding-partial', 'the name slice searched for padding is not event.len bytes long: %s' % (w[2][1],), f.where(p))
     for loc in evref:
         r.inst('event reference formed', f.where(loc))
-        r.require(any(f.dominates(p, loc) for p in rpos), 'poll_sys/padding-order', 'the event reference is formed before the padding was measured', f.where(loc))
+        r.require(any(f.dominates(p, loc) for p in rpos) or (scan is not None and f.dominates(scan['init'], loc)), 'poll_sys/padding-order', 'the event reference is formed before the padding was measured', f.where(loc))
         t = f.at(loc)
         ln = ebp.operand(t['args'][1])
-        r.require(any(x[0] == 'call' and x[1].endswith('rposition') for x in subexprs(ln)) or 'path_len' in str(ln), 'poll_sys/name-length', 'the event\'s name length is not the trimmed length: %s' % (ln,), f.where(loc))
+        from_scan = scan is not None and any(x[0] == 'local' and x[1] == scan['counter'] for x in subexprs(ExprBuilder(f, multi='leaf').operand(t['args'][1]))) or \
+            (scan is not None and scan['counter'] in _feeds(f, t['args'][1]))
+        r.require(any(x[0] == 'call' and x[1].endswith('rposition') for x in subexprs(ln)) or from_scan, 'poll_sys/name-length', 'the event\'s name length is not the trimmed length: %s' % (str(ln)[:200],), f.where(loc))
     r.floor(2)
+
+
+def _feeds(f, op):
+    """locals whose value can flow (through whole-local copies) into operand op"""
+    out = set()
+    work = [op['l']] if 'l' in op else []
+    while work:
+        l = work.pop()
+        if l in out:
+            continue
+        out.add(l)
+        for loc, kind, payload in f.defs.get(l, []):
+            if kind == 'assign' and payload['k'] == 'use' and 'l' in payload['op'] and not payload['op']['p']:
+                work.append(payload['op']['l'])
+    return out
+
+
+def backward_nul_scan(f):
+    """the hand-written form of the padding search:
+           let mut end = name.len(); while end > 0 { if name[end - 1] != 0 { return end } end -= 1 } name.len()
+       recognised structurally: a counter initialised with the length of the *whole* name slice and decremented by
+       one, an indexed read name[counter - 1] compared with 0 inside the loop.  Returns dict(counter, test)."""
+    eb = ExprBuilder(f, multi='leaf')
+    ebp = ExprBuilder(f, multi='phi')
+    for b, blk in enumerate(f.blocks):
+        t = blk['term']
+        if blk['cleanup'] or t['k'] != 'switch':
+            continue
+        e = eb.operand(t['discr'])
+        if not (e[0] == 'bin' and e[1] in ('Ne', 'Eq') and any(y[0] == 'const' and y[1] == 0 for y in (e[2], e[3]))):
+            continue
+        byte = [y for y in (e[2], e[3]) if y[0] == 'proj'] 
+        if not byte:
+            continue
+        pr = byte[0]
+        idx = [p for p in pr[2] if p.startswith('[_')]
+        if not idx:
+            continue
+        il = int(idx[0][2:-1])
+        ie = eb.local(il)
+        while ie[0] == 'proj' and ie[2] == ('.0',):
+            ie = ie[1]
+        if not (ie[0] == 'bin' and ie[1].startswith('Sub') and ie[2][0] == 'local' and ie[3][0] == 'const' and ie[3][1] == 1):
+            continue
+        counter = ie[2][1]
+        defs = [ebp.definition(d, 0, ()) for d in f.defs.get(counter, []) if not f.blocks[d[0][0]]['cleanup']]
+        inits = [d for d in defs if d[0] == 'call' and d[1].endswith('::len')]
+        decs = [d for d in defs if (d[0] == 'proj' and d[1][0] == 'bin' and d[1][1].startswith('Sub')) or (d[0] == 'bin' and d[1].startswith('Sub'))]
+        if not inits or not decs or len(inits) + len(decs) != len(defs):
+            continue
+        whole = [x for x in subexprs(inits[0]) if x[0] == 'call' and x[1] == 'std::slice::from_raw_parts']
+        cut = [x for x in subexprs(inits[0]) if x[0] == 'call' and x[1] in ('std::ops::Index::index', 'core::slice::<impl [T]>::get', 'core::slice::<impl [T]>::split_at')]
+        base = [x for x in subexprs(ebp.place({'l': pr[1][1], 'p': []}) if pr[1][0] == 'local' else pr[1]) if x[0] == 'call' and x[1] == 'std::slice::from_raw_parts']
+        if whole and not cut and (fam.last_field(whole[0][2][1]) == 'len' or 'len' in str(whole[0][2][1])):
+            init_locs = [d[0] for d in f.defs.get(counter, []) if not f.blocks[d[0][0]]['cleanup'] and ebp.definition(d, 0, ())[0] == 'call']
+            return {'counter': counter, 'test': f.term_loc(b), 'init': init_locs[0] if init_locs else f.term_loc(b)}
+    return None
 
 
 def r5_watch_paths(r, facts):
